@@ -405,10 +405,23 @@ def r15_6(run):
         mcfg = CFG(mod.tree)
         defs = _rd(mcfg, sw, EXIT)
         vals = [getattr(mcfg.stmt[d], "value", None) if d != ENTRY else None for d in defs]
-        ok = bool(vals) and all(isinstance(v, ast.Constant) and isinstance(v.value, bool) for v in vals)
+        def _boolish(v):
+            if isinstance(v, ast.Constant):
+                return isinstance(v.value, bool)
+            if isinstance(v, ast.Compare):
+                return True
+            if isinstance(v, ast.UnaryOp) and isinstance(v.op, ast.Not):
+                return True
+            if isinstance(v, ast.BoolOp):
+                return all(_boolish(x) for x in v.values)
+            if isinstance(v, ast.IfExp):
+                return _boolish(v.body) and _boolish(v.orelse)
+            return isinstance(v, ast.Call) and dotted(v.func) == "bool"
+
+        ok = bool(vals) and all(v is not None and _boolish(v) for v in vals)
         run.ob("R15.6", loc(mod, mod.symbols[sw].node) if sw in mod.symbols and mod.symbols[sw].node is not None else modn, modn[7:],
-               f"module initialisation leaves {sw} a literal bool on every path", ok,
-               f"{len(vals)} reaching definition(s) at the end of the module, all True/False" if ok else
+               f"module initialisation leaves {sw} a bool on every path", ok,
+               f"{len(vals)} reaching definition(s) at the end of the module, all boolean-valued (True/False, comparison, not, bool(...))" if ok else
                f"{sw} can be left as {[norm(v) if v is not None else 'undefined' for v in vals]}: a scope saves that non-bool value and its exit fails to restore it "
                f"(the setter raises TypeError), leaving the scope's setting in force process-wide")
     # the module-level singletons are instances of the right classes
